@@ -131,11 +131,7 @@ def run(ctx: Ctx):
     ctx.rule("R17.b", "grammar: white space is ignored; a comment is one terminal from # to the end of the line (may be empty, cannot span lines); comment lines and blank lines are accepted inside a component-tagged block without ending it", floor=5)
     ctx.check("WS" in G.ignore, "R17.b", "src/gotranx/ode.lark::%ignore WS", "%ignore WS", "ode.lark no longer ignores white space (indentation, blank lines, line continuation would become significant)", "src/gotranx/ode.lark")
     # the comment rule is found by what it matches (a terminal that starts with `#`), not by its name
-    hash_terms = {t for t, d in G.terms.items() if re.search(r"/\s*#|\"#\"", " " + d["shape"])}
-    cnames = [r for r in G.rules if set(G.rule_refs(r)) & hash_terms and not (set(G.rule_refs(r)) - hash_terms - {"NEWLINE"})]
-    cname = "comment" if "comment" in G.rules else (cnames[0] if cnames else None)
-    if cname is None:
-        ctx.broken("ode.lark: no rule that matches a `#` comment found (anchor vanished)")
+    cname = comment_rule_name(ctx, G)
     crule = G.rule(cname)
     terms = [t for t in G.rule_refs(cname)]
     lits = G.rule_literals(cname)
@@ -154,17 +150,7 @@ def run(ctx: Ctx):
         f"the comment rule is `{G.shape(cname)}` with regexps {regexes}: a `#` token followed by a separate text token lets the ignored white space (including the line break) slip in between, so an empty comment swallows the next line; the text part must stop at the line feed and only there (a line ends only at a line feed: NEWLINE is (CR? LF)+ and a lone CR is ignored white space, so a comment that also stops at CR, or at any other character, hands the rest of its line to the parser as model text)",
         "src/gotranx/ode.lark",
     )
-    exp = G.rule("expressions")
-    alts = [a for a in exp["tree"].children]
-    tagged = [a for a in alts if G.render(a).startswith('"expressions" "("') or G.render(a).startswith('"component" "("')]
-    ctx.check(len(tagged) == 2, "R17.b", "src/gotranx/ode.lark::expressions::tagged-alternatives", "expressions(...) and component(...) headers", f"expressions rule has {len(tagged)} component-tagged alternatives", "src/gotranx/ode.lark")
-    for a in tagged:
-        txt = G.render(a)
-        body = G.expand_inlined(txt[txt.rfind('")"') + 3:].strip())
-        while body.startswith("(") and body.endswith(")") and body.count("(") == body.count(")") and not body.endswith(")+"):
-            body = body[1:-1].strip()
-        okb = all(x in body for x in ("assignment", cname, "NEWLINE")) and body.endswith(")+")
-        ctx.check(okb, "R17.b", f"src/gotranx/ode.lark::expressions::{txt.split()[0]}::block-items", f"block items: {body}", f"inside a `{txt.split()[0].strip(chr(34))}(...)` block only `{body}` is accepted: a comment line or a blank line between two assignments ends the block and the remaining assignments silently move to the unnamed component (or the model no longer loads)", "src/gotranx/ode.lark")
+    check_block_items(ctx, "R17.b", G, cname)
     from sa import av as _avt
 
     from . import util as _ut
@@ -230,6 +216,32 @@ def run(ctx: Ctx):
 
 
 TEXT_TRANSFORMS = {"sub", "subn", "replace", "strip", "rstrip", "lstrip", "splitlines", "split", "join", "expandtabs", "translate", "lower", "upper", "format", "encode", "decode", "partition", "rpartition", "removeprefix", "removesuffix"}
+
+
+def comment_rule_name(ctx: Ctx, G) -> str:
+    hash_terms = {t for t, d in G.terms.items() if re.search(r"/\s*#|\"#\"", " " + d["shape"])}
+    cnames = [r for r in G.rules if set(G.rule_refs(r)) & hash_terms and not (set(G.rule_refs(r)) - hash_terms - {"NEWLINE"})]
+    cname = "comment" if "comment" in G.rules else (cnames[0] if cnames else None)
+    if cname is None:
+        ctx.broken("ode.lark: no rule that matches a `#` comment found (anchor vanished)")
+    return cname
+
+
+def check_block_items(ctx: Ctx, rule: str, G, cname: str):
+    """Inside a component-tagged block the grammar accepts assignments, comment lines and blank lines: a comment or blank
+    line between two assignments must not end the block (the remaining assignments would silently move to the unnamed
+    component - membership would depend on where the line stands)."""
+    exp = G.rule("expressions")
+    alts = [a for a in exp["tree"].children]
+    tagged = [a for a in alts if G.render(a).startswith('"expressions" "("') or G.render(a).startswith('"component" "("')]
+    ctx.check(len(tagged) == 2, rule, "src/gotranx/ode.lark::expressions::tagged-alternatives", "expressions(...) and component(...) headers", f"expressions rule has {len(tagged)} component-tagged alternatives", "src/gotranx/ode.lark")
+    for a in tagged:
+        txt = G.render(a)
+        body = G.expand_inlined(txt[txt.rfind('")"') + 3:].strip())
+        while body.startswith("(") and body.endswith(")") and body.count("(") == body.count(")") and not body.endswith(")+"):
+            body = body[1:-1].strip()
+        okb = all(x in body for x in ("assignment", cname, "NEWLINE")) and body.endswith(")+")
+        ctx.check(okb, rule, f"src/gotranx/ode.lark::expressions::{txt.split()[0]}::block-items", f"block items: {body}", f"inside a `{txt.split()[0].strip(chr(34))}(...)` block only `{body}` is accepted: a comment line or a blank line between two assignments ends the block and the remaining assignments silently move to the unnamed component (or the model no longer loads)", "src/gotranx/ode.lark")
 
 
 def _comment_regex_verdict(rx: str) -> str:
